@@ -10,7 +10,11 @@ from props import _c06_tables
 ID = "C06"
 COQ_REQUIRE = "C06.Run"
 SHARD = 150
-RULE = ("kernel records printed by the Coq kernel printers (k_stat, k_status, k_procstat) from generated task records: comm of 0-15 "
+RULE = ("14 LIVE cases per run: real children (prctl names with parentheses/blanks/newline/backslash/non-UTF-8/15-byte "
+        "truncation/'Uid:\\t0\\t0\\t0'/'ctxt_switches:\\t', a copied /bin/sleep under a hostile file name, 4 named threads, nice 7, "
+        "SIGSTOPped, zombie, controlling pty) whose real /proc/<pid>/stat, status and task/<tid>/stat must equal byte for byte "
+        "what k_stat/k_status print for the parsed record, then go through model, psutil-over-fake-tree and psutil over the real "
+        "/proc; kernel records printed by the Coq kernel printers (k_stat, k_status, k_procstat) from generated task records: comm of 0-15 "
         "bytes (threads up to 64) over an alphabet weighted towards ')' '(' space tab newline ':' backslash digits, the literal "
         "prefixes 'Uid:\\t' 'Gid:\\t' 'Threads:\\t' 'ctxt_switches:\\t' and bytes >= 0x80; 12 documented state letters + 4 "
         "unknown; counters from {0,1,99,2^31,2^32,2^63,2^64-1,10^25}; N = 39..52 fields (old-kernel records without "
@@ -31,6 +35,8 @@ TRUSTED = ["correspondence harness props/C06.py + pv/ (fake /proc tree; os.scand
            "kernel formats of /proc/<pid>/stat, /proc/<pid>/status (Name escaping), /proc/stat btime, new_encode_dev and glibc "
            "makedev transcribed in coq/C06/Spec.v",
            "table translator props/_c06_tables.py (PROC_STATUSES, STATUS_ZOMBIE -> coq/Gen/C06_Tables.v)",
+           "live helper props/_c06_live.py and the harness-side parsers _parse_real_stat/_parse_real_status (they only cut the real "
+           "text into the fields the Coq printers re-assemble; a wrong cut shows up as a byte mismatch)",
            "child interpreters props/_c06_child.py (one per file-system encoding, JSON line protocol); the fs codec transcribed in "
            "coq/C06/Codec.v (utf-8/ascii/latin-1 + surrogateescape) is compared with CPython's on every such case",
            "CPython re engine agrees with the four hand-written scanners of coq/C06/Model.v; glob/fnmatch agree with glob_tty/"
@@ -426,9 +432,105 @@ def _raw_ppid_case(rng):
     return {"kind": "ppid_map_raw", "cls": "raw-ppid_map", "listing": listing}
 
 
+class LiveMismatch(RuntimeError):
+    """The running kernel's text is outside what coq/C06/Spec.v describes: a harness error, never a verdict."""
+
+
+def _parse_real_stat(data):
+    """pid, comm, fields (3).. of a real stat record (harness-side, independent of psutil and of the model)."""
+    lp = data.index(b" (")
+    rp = data.rindex(b") ")
+    if not data.endswith(b"\n"):
+        raise LiveMismatch("real stat record does not end with a newline: %r" % data[-20:])
+    return data[:lp].decode(), data[lp + 2:rp], [t.decode("latin-1") for t in data[rp + 2:-1].split(b" ")]
+
+
+def _parse_real_status(data):
+    lines = data.split(b"\n")
+    if lines[-1] != b"" or not lines[0].startswith(b"Name:\t"):
+        raise LiveMismatch("real status file: unexpected shape %r ... %r" % (lines[0], lines[-1]))
+    lines = lines[:-1]
+
+    def at(prefix):
+        hits = [i for i, l in enumerate(lines) if l.startswith(prefix)]
+        if len(hits) != 1:
+            raise LiveMismatch("real status file: %d lines start with %r" % (len(hits), prefix))
+        return hits[0]
+    iu, ig, it = at(b"Uid:\t"), at(b"Gid:\t"), at(b"Threads:\t")
+    iv, inv = at(b"voluntary_ctxt_switches:\t"), at(b"nonvoluntary_ctxt_switches:\t")
+    if not (0 < iu and ig == iu + 1 and ig < it < iv and inv == iv + 1):
+        raise LiveMismatch("real status file: line order Name < Uid,Gid < Threads < ctxt lines does not hold")
+    hx = lambda ls: [l.hex() for l in ls]  # noqa
+    return {"name_line": lines[0].hex(), "pre": hx(lines[1:iu]), "uid": lines[iu][5:].decode().split("\t"),
+            "gid": lines[ig][5:].decode().split("\t"), "mid": hx(lines[ig + 1:it]), "threads": lines[it][9:].decode(),
+            "post": hx(lines[it + 1:iv]), "ctx": [lines[iv].split(b"\t")[1].decode(), lines[inv].split(b"\t")[1].decode()],
+            "tail": hx(lines[inv + 1:])}
+
+
+def _live_cases():
+    """Spawn real children (props/_c06_live.py, run with the psutil under test), snapshot their /proc files and the
+    answers of psutil over the real /proc; parse the snapshots into the records the Coq printers take."""
+    import subprocess
+    if not _IMPL_DIR:
+        return []
+    verif = os.path.dirname(os.path.dirname(os.path.abspath(__file__)))
+    env = dict(os.environ, PYTHONPATH=_IMPL_DIR + os.pathsep + verif, PYTHONDONTWRITEBYTECODE="1")
+    work = os.path.join(os.environ.get("VERIF_SCRATCH_BASE", "/var/tmp"), "pv_c06_live_%d" % os.getpid())
+    try:
+        r = subprocess.run(["/venv/bin/python", "-m", "props._c06_live", work], env=env, cwd=verif, stdout=subprocess.PIPE,
+                           stderr=subprocess.PIPE, text=True, timeout=120)
+    finally:
+        import shutil
+        shutil.rmtree(work, ignore_errors=True)
+    if r.returncode != 0:
+        raise RuntimeError("C06 live helper failed:\n" + r.stderr[-2000:])
+    doc = json.loads(r.stdout.strip().splitlines()[-1])
+    if not os.path.realpath(doc["psutil"]).startswith(os.path.realpath(_IMPL_DIR)):
+        raise RuntimeError("C06 live helper imported psutil from %s" % doc["psutil"])
+    cases = []
+    for e in doc["entries"]:
+        pid, comm, after = _parse_real_stat(bytes.fromhex(e["stat"]))
+        # what is known about the child must be where proc(5) says it is: (2) comm, (3) state, (4) ppid, (19) nice, (20) num_threads
+        want = {"comm": e["want_name"], "state": {"sleeping": "S", "stopped": "T", "zombie": "Z"}[e["want_status"]],
+                "ppid": str(e["parent"]), "nice": str(e["want_nice"]), "num_threads": str(e["want_threads"])}
+        got = {"comm": comm.hex() if e["want_name"] is not None else None, "state": after[0], "ppid": after[1],
+               "nice": after[16], "num_threads": after[17]}
+        if want != got or pid != str(e["pid"]):
+            raise LiveMismatch("live child %s: the kernel's stat record does not carry the known facts at the proc(5) "
+                               "positions: want %r got %r" % (e["label"], want, got))
+        tasks = []
+        for tid, hx in e["tasks"]:
+            tp, tc, ta = _parse_real_stat(bytes.fromhex(hx))
+            if tp != tid:
+                raise LiveMismatch("task %s: stat record starts with %s" % (tid, tp))
+            tasks.append({"tid": int(tid), "comm": tc.hex(), "after": ta, "real": hx})
+        names = sorted(t["comm"] for t in tasks if t["tid"] != e["pid"])
+        if names != sorted(e["want_thread_names"]):
+            raise LiveMismatch("live child %s: thread names %r, wanted %r" % (e["label"], names, e["want_thread_names"]))
+        cases.append({"kind": "live", "cls": "live-" + e["label"], "label": e["label"], "pid": e["pid"], "clk": doc["clk"],
+                      "btime": doc["btime"], "kernel": doc["kernel"], "comm": comm.hex(), "after": after,
+                      "real_stat": e["stat"], "status": _parse_real_status(bytes.fromhex(e["status"])),
+                      "real_status": e["status"], "tasks": tasks, "tty": e["tty"], "live": e["live"],
+                      "want_status": e["want_status"], "want_threads": e["want_threads"], "helper_uid": doc["uid"],
+                      "helper_gid": doc["gid"], "parent": e["parent"], "expect_spec": True})
+    return cases
+
+
+def _live_subcases(case):
+    pts = [] if not case["tty"] else [[os.path.basename(case["tty"]["path"]), case["tty"]["major"], case["tty"]["minor"], False]]
+    stat = {"kind": "stat", "pid": case["pid"], "clk": case["clk"], "btime": int(case["btime"]), "dev": [], "pts": pts,
+            "tty": None if not case["tty"] else [case["tty"]["major"], case["tty"]["minor"]], "expect_spec": True}
+    status = {"kind": "status", "expect_spec": True}
+    threads = {"kind": "threads", "clk": case["clk"], "alive": True, "expect_spec": True,
+               "threads": [{"tid": t["tid"], "gone": False} for t in case["tasks"]]}
+    return stat, status, threads
+
+
 def gen_cases(rng, tier):
     n = {"quick": 1, "thorough": 10, "search": 2}[tier]
     cases = []
+    if tier != "search":
+        cases += _live_cases()       # the running kernel: real children, real /proc text
     # every documented state letter (and the unknown ones) once
     for st in STATES:
         c = _stat_case(rng, comm=b"st)ate (x", cls="stat-letter")
@@ -519,6 +621,22 @@ def _pos(n):
 
 def coq_term(case):
     k = case["kind"]
+    if k == "live":
+        rec = lambda pid, comm, after: _kstat(pid, bytes.fromhex(comm), [a.encode("latin-1") for a in after])  # noqa
+        own = rec(case["pid"], case["comm"], case["after"])
+        sub_stat, _, _ = _live_subcases(case)
+        node = lambda d: "(Build_devnode %s %s %s %s)" % (G.by(d[0]), G.z(d[1]), G.z(d[2]), G.bo(d[3]))  # noqa
+        tty = "None" if sub_stat["tty"] is None else "(Some (%s, %s))" % (G.z(sub_stat["tty"][0]), G.z(sub_stat["tty"][1]))
+        t_stat = "run_stat %s %s (Build_kprocstat [] %s []) [] %s %s %s" % (
+            G.bo(MASKED_TTY), _pos(case["clk"]), G.by(case["btime"]), G.lst([node(d) for d in sub_stat["pts"]]), tty, own)
+        st = case["status"]
+        hl = lambda xs: G.lst([G.by(bytes.fromhex(x)) for x in xs])  # noqa
+        t_status = "run_status (Build_kstatus %s %s %s %s %s %s (Some (%s, %s)) %s)" % (
+            G.by(bytes.fromhex(case["comm"])), hl(st["pre"]), " ".join(G.by(x) for x in st["uid"] + st["gid"]), hl(st["mid"]),
+            G.by(st["threads"]), hl(st["post"]), G.by(st["ctx"][0]), G.by(st["ctx"][1]), hl(st["tail"]))
+        ts = ["(Build_kthread %s %s false)" % (G.by(str(t["tid"])), rec(t["tid"], t["comm"], t["after"])) for t in case["tasks"]]
+        t_threads = "run_threads %s %s true %s" % (_pos(case["clk"]), G.lst(ts), own)
+        return "JL [%s; %s; %s]" % (t_stat, t_status, t_threads)
     if k == "name_hist":
         xs = []
         for st in case["steps"]:
@@ -587,8 +705,33 @@ def _tfile(d):
     return "TGone" if d is None else "TDenied" if d == "denied" else "(TContent %s)" % G.by(bytes.fromhex(d))
 
 
+def _same_bytes(what, printed, real_hex, case):
+    if printed["b"] != real_hex:
+        a, b = bytes.fromhex(printed["b"]), bytes.fromhex(real_hex)
+        i = next((j for j in range(min(len(a), len(b))) if a[j] != b[j]), min(len(a), len(b)))
+        raise LiveMismatch("live child %s (kernel %s): %s printed by the Coq kernel printer differs from the running kernel's "
+                           "text at byte %d: printed %r, kernel %r" % (case["label"], case["kernel"], what, i,
+                                                                      a[max(0, i - 20):i + 30], b[max(0, i - 20):i + 30]))
+
+
 def coq_struct(case, raw):
     k = case["kind"]
+    if k == "live":
+        r_stat, r_status, r_threads = raw
+        # (1) the kernel printers against the running kernel, byte for byte
+        _same_bytes("/proc/<pid>/stat", r_stat[0], case["real_stat"], case)
+        _same_bytes("/proc/<pid>/status", r_status[0], case["real_status"], case)
+        if len(r_threads[0]) != len(case["tasks"]):
+            raise LiveMismatch("live: %d task records printed for %d tasks" % (len(r_threads[0]), len(case["tasks"])))
+        for pr, t in zip(r_threads[0], case["tasks"]):
+            _same_bytes("/proc/<pid>/task/%d/stat" % t["tid"], pr, t["real"], case)
+        parts = [{"printed": r_stat[0], "procstat": r_stat[1], "model": r_stat[2], "spec": r_stat[3]},
+                 {"printed": r_status[0], "model": r_status[1], "spec": r_status[2]},
+                 {"printed": r_threads[0], "own": r_threads[1], "model": r_threads[2], "spec": r_threads[3]}]
+        if any(p["spec"] is None for p in parts) or any(x is None for x in parts[0]["spec"]) or any(x is None for x in parts[1]["spec"]):
+            raise LiveMismatch("live child %s: a record of the running kernel is outside the domain of the specification "
+                               "(wf false or a component not applicable): %r" % (case["label"], [p["spec"] for p in parts]))
+        return {"parts": parts, "model": [p["model"] for p in parts], "spec": [p["spec"] for p in parts]}
     if k == "stat":
         return {"printed": raw[0], "procstat": raw[1], "model": raw[2], "spec": raw[3]}
     if k in ("status", "ppid_map", "stat_race", "name_enc", "name_hist"):
@@ -639,6 +782,42 @@ def judge(case, coq, impl):
     model, spec = coq["model"], coq["spec"]
     if case.get("expect_spec") and spec is None:
         return Verdict("corr", "harness: the specification does not apply to a generated kernel record (wf false)")
+    if k == "live":
+        # (2) the same real bytes through the fake tree: implementation = model = specification
+        for sub, q, i in zip(_live_subcases(case), coq["parts"], impl):
+            v = judge(sub, q, i)
+            if v.kind != "ok":
+                return Verdict(v.kind, "real kernel record of child %s: %s" % (case["label"], v.detail))
+        # (3) psutil over the REAL /proc while the child was alive, against the specification of the snapshot
+        sp_stat, sp_status = coq["parts"][0]["spec"], coq["parts"][1]["spec"]
+        lv = case["live"]
+        val = lambda x: {"t": "Val", "a": [x]}  # noqa
+        want = {"name": sp_stat[0], "ppid": sp_stat[1], "status": sp_stat[2], "terminal": sp_stat[6],
+                "uids": sp_status[0], "gids": sp_status[1], "num_threads": sp_status[2],
+                "thread_ids": val(sorted(t["tid"] for t in case["tasks"])), "ppid_map": sp_stat[1]}
+        got = {}
+        for key, ans in lv.items():
+            if "exc" in ans:
+                got[key] = T("Exc", T(ans["exc"]))
+            elif key in ("name",):
+                got[key] = val({"b": ans["ok"]})
+            elif key in ("status", "terminal"):
+                got[key] = val(None if ans["ok"] is None else B(ans["ok"]))
+            elif key == "create_time":
+                got[key] = val(T("F", ans["ok"][0], ans["ok"][1]))
+            else:
+                got[key] = val(ans["ok"])
+        bad = [key for key in want if got.get(key) != want[key]]
+        if not _same(got.get("create_time"), sp_stat[4]):
+            bad.append("create_time")
+        facts = {"status": val(B(case["want_status"])), "num_threads": val(case["want_threads"]),
+                 "terminal": val(None if not case["tty"] else B(case["tty"]["path"])), "ppid": val(case["parent"]),
+                 "uids": val([case["helper_uid"]] * 3), "gids": val([case["helper_gid"]] * 3)}
+        bad += [key + " (known fact)" for key in facts if got.get(key) != facts[key]]
+        if bad:
+            return Verdict("violation", "psutil over the real /proc of child %s: %s differ(s) from what the kernel "
+                                        "publishes" % (case["label"], ", ".join(bad)))
+        return Verdict("ok")
     if k == "name_hist":
         for i, (got, m, sp) in enumerate(zip(impl, model, spec)):
             if sp is not None and got != sp:
@@ -785,6 +964,8 @@ def _impl_run(case, coq, env):
     from psutil import _common, _pslinux, _psposix
     from pv import fakeproc
     k = case["kind"]
+    if k == "live":      # the real kernel's bytes through the fake tree, one sub-run per file
+        return [_impl_run(sub, q, env) for sub, q in zip(_live_subcases(case), coq["parts"])]
     root = os.path.join(env["work"], "proc")
     fp = fakeproc.FakeProc(root, btime=case.get("btime", 1500000000))
     fakeproc.attach(psutil, root)
@@ -1015,7 +1196,12 @@ def _impl_run(case, coq, env):
             del _common.open
 
 
+_IMPL_DIR = None
+
+
 def gen_tables(impl_dir, out_dir):
+    global _IMPL_DIR
+    _IMPL_DIR = impl_dir          # the live cases of gen_cases() query the real /proc with this build
     return _c06_tables.gen_tables(impl_dir, out_dir)
 
 
@@ -1038,7 +1224,8 @@ MANIFEST = {
             "ppid_map()/pids() exact for any /proc listing (vanished, unreadable, non-numeric entries). Witness for the pre-fix "
             "signed tty_nr kept. Tied to the code by running the real psutil (public API, fake /proc and /dev, patched CLOCK_TICKS, "
             "read faults) and the model on the same printed records and on a malformed stream.",
-    "note": "Trusted: Coq kernel + vm_compute; hand-written model coq/C06/Model.v (tied by the correspondence run only, including "
+    "note": "The kernel printers k_stat / k_status (incl. the Name escaping) and new_encode_dev are checked byte for byte against the "
+            "running kernel on every run (live cases). Trusted: Coq kernel + vm_compute; hand-written model coq/C06/Model.v (tied by the correspondence run only, including "
             "the regex scanners standing for CPython's re and glob_tty/glob_pts standing for glob+fnmatch); kernel formats in "
             "coq/C06/Spec.v; table translator; harness patches (CLOCK_TICKS, os.scandir, os.stat, os.listdir, psutil._common.open); "
             "CPython builtins and IEEE doubles. Proof covers the model, sampling covers model-vs-code.",
